@@ -340,6 +340,9 @@ def field_value(draw, k, depth):
         items = draw(st.lists(struct_value(k[1][2], depth + 1), min_size=1, max_size=4 if depth < 2 else 2))
         if draw(st.integers(0, 3)) == 0:
             items = items + [items[0]]          # byte-identical neighbours are legal (two equal configurations)
+        if draw(st.integers(0, 4)) == 0:
+            # an item with no field set, anywhere but last (there the encoding has nothing behind the separator, and the tree reads no item)
+            items.insert(draw(st.integers(0, len(items) - 1)), {})
         return items
     raise HarnessError(f"no strategy for {k}")
 
